@@ -208,6 +208,7 @@ struct SeqRun
     int64_t                       z_prev{0};
     int64_t                       newly_expired{0};
     bool                          aged_this_step{false};
+    bool                          expired_first_this_step{false}; // a full insert of this step met an expired and a live resident (C16's rule applied)
     bool                          twins_in_sync{true};
     int64_t                       doa_step{0}; // writes of the current step that were dead on arrival
     uint64_t                      s_calls_step{0}; // insert/erase/lookup/clean calls made on S in the current step
@@ -602,6 +603,10 @@ struct SeqRun
                     pr.push_back("C11");
                 else if (const char* pol = policy_prop())
                     pr.push_back(pol);
+                // the singles of this step applied the expired-first rule (verified against the model): a range call
+                // that ends with a different resident set chose its victims differently where that rule was in force
+                if (expired_first_this_step && !(g.hit == f.hit && g.val == f.val))
+                    pr.push_back("C16");
                 if (fail(pr, "range.state_diverged",
                          std::string(phase) + ": probe of key " + std::to_string(k) +
                              " differs between range-driven and single-driven instance (hit " + std::to_string(g.hit) + "/" +
@@ -1008,6 +1013,7 @@ struct SeqRun
                 {
                     eval("C16");
                     nt("C16");
+                    expired_first_this_step = true;
                     st.bump("probe.full_insert_with_expired_and_live");
                 }
                 if (!missing.empty())
@@ -1535,6 +1541,7 @@ struct SeqRun
     {
         const Op& op   = stp.op;
         aged_this_step = false;
+        expired_first_this_step = false;
         doa_step       = 0;
         s_calls_step   = 0;
         now += stp.adv_ns;
